@@ -336,7 +336,13 @@ impl Deserializable for ProofOptions {
             BatchingMethod::read_from(source)?,
             BatchingMethod::read_from(source)?,
         );
-        Ok(result.with_partitions(source.read_u8()? as usize, source.read_u8()? as usize))
+        let num_partitions = source.read_u8()? as usize;
+        // a hash rate of 256 does not fit into the byte it is stored in and is encoded as 0
+        let hash_rate = match source.read_u8()? {
+            0 => 256,
+            hash_rate => hash_rate as usize,
+        };
+        Ok(result.with_partitions(num_partitions, hash_rate))
     }
 }
 
@@ -416,6 +422,8 @@ impl PartitionOptions {
         assert!(hash_rate >= 1, "hash rate must be greater than or equal to 1");
         assert!(hash_rate <= 256, "hash rate must be smaller than or equal to 256");
 
+        // the maximum hash rate of 256 wraps around to 0 in the `u8` it is stored in; 0 is not a
+        // valid rate and stands for 256 wherever the rate is read back
         Self {
             num_partitions: num_partitions as u8,
             hash_rate: hash_rate as u8,
@@ -432,7 +440,9 @@ impl PartitionOptions {
 
         // Don't separate columns that would fit inside one hash iteration. min_partition_size is
         // the number of `E` elements that can be consumed in one hash iteration.
-        let min_partition_size = self.hash_rate as usize / E::EXTENSION_DEGREE;
+        // a hash rate of 256 is stored as 0 (see `new`)
+        let hash_rate = if self.hash_rate == 0 { 256 } else { self.hash_rate as usize };
+        let min_partition_size = hash_rate / E::EXTENSION_DEGREE;
 
         cmp::max(num_columns.div_ceil(self.num_partitions as usize), min_partition_size)
     }
